@@ -172,6 +172,73 @@ def expect_band(ctx, spec, fs, label, band, where, tol=1e-9):
         ctx.fail(f"{where}: metric '{label}' is {vals[0]}, the independently computed value is {lo if lo == hi else [lo, hi]}", spec, vals[0], [lo, hi], kind="metric_value")
 
 
+_PROBES = {}
+
+
+def _probe_specs():
+    """Small fixed inputs, one per task, with the awkward corners in them: a multilabel clip without any true label and without a score
+    above one half, a detection clip with a missed and a spurious event, a sound-event clip without events."""
+    v3 = [["species", "a"], ["species", "b"], ["species", "c"]]
+
+    def box(a):
+        return {"type": "BoundingBox", "coordinates": [a, 1000.0, a + 1.0, 2000.0]}
+
+    det = {"vocab": v3, "order": [0, 1], "clips": [
+        {"side": "both", "separate_clip": None, "anns": [{"geometry": box(0.0), "tags": [0]}, {"geometry": box(5.0), "tags": [1]}],
+         "preds": [{"geometry": box(0.25), "tags": [[0, 0.75], [1, 0.25]], "conf": 0.5}, {"geometry": box(9.0), "tags": [[2, 0.5]], "conf": 0.5}]},
+        {"side": "both", "separate_clip": None, "anns": [{"geometry": box(1.0), "tags": [2]}], "preds": [{"geometry": box(1.0), "tags": [[2, 1.0]], "conf": 0.5}]}]}
+    sec = {"vocab": v3, "order": [0, 1], "clips": [
+        {"side": "both", "separate_clip": None, "anns": [{"geometry": box(0.0), "tags": [0]}, {"geometry": box(5.0), "tags": [1]}],
+         "preds": [{"geometry": box(0.0), "tags": [[0, 0.75]], "same_as": 0, "conf": 0.5}, {"geometry": box(5.0), "tags": [[0, 0.5], [1, 0.25]], "same_as": 1, "conf": 0.5}]},
+        {"side": "both", "separate_clip": None, "anns": [], "preds": []}]}
+    clf = {"vocab": v3, "order": [0, 1, 2], "clips": [
+        {"side": "both", "separate_clip": None, "anns": [], "preds": [], "true_tags": [0], "pred_tags": [[0, 0.5], [1, 0.25]]},
+        {"side": "both", "separate_clip": None, "anns": [], "preds": [], "true_tags": [1], "pred_tags": [[0, 0.75]]},
+        {"side": "both", "separate_clip": None, "anns": [], "preds": [], "true_tags": [], "pred_tags": [[2, 0.25]]}]}
+    ml = {"vocab": v3, "order": [0, 1, 2], "clips": [
+        {"side": "both", "separate_clip": None, "anns": [], "preds": [], "true_tags": [0, 1], "pred_tags": [[0, 0.75], [1, 0.25]]},
+        {"side": "both", "separate_clip": None, "anns": [], "preds": [], "true_tags": [], "pred_tags": [[2, 0.25]]},
+        {"side": "both", "separate_clip": None, "anns": [], "preds": [], "true_tags": [2], "pred_tags": [[2, 1.0]]}]}
+    # "poison": inputs on which a task legitimately gives up (no evaluated item carries a class of the vocabulary) - whatever it does
+    # there, it must not change what later calls return
+    nolabel = {"vocab": [["other", "x"], ["other", "y"]], "order": [0], "clips": [
+        {"side": "both", "separate_clip": None, "anns": [{"geometry": box(0.0), "tags": [-1]}], "preds": [{"geometry": box(0.0), "tags": [[-1, 0.5]], "conf": 0.5}]}]}
+    return {"sound_event_detection": det, "sound_event_classification": sec, "clip_classification": clf, "clip_multilabel_classification": ml}, nolabel
+
+
+def _signature(ev):
+    return (ev.score, sorted((f.term.label, round(float(f.value), 12)) for f in ev.metrics), [(ce.score, sorted((f.term.label, round(float(f.value), 12)) for f in ce.metrics)) for ce in ev.clip_evaluations])
+
+
+def _probe_other_tasks(ctx, spec, evaluation):
+    """State must not travel from one evaluation to the next (warnings filters, module-level metric tables, encoders): after the
+    evaluation of this case - and after a call on inputs a task gives up on - every task still answers the fixed probe inputs as it did
+    when the process was fresh."""
+    specs, nolabel = _probe_specs()
+    if not _PROBES:
+        for t, ps in specs.items():
+            cps, cas, vocab, _ = evalgen.build(ps)
+            _PROBES[t] = _signature(getattr(evaluation, t)(cps, cas, vocab))
+    n = _PROBES.setdefault("_count", 0)
+    _PROBES["_count"] = n + 1
+    if n % 3 == 0:
+        cps, cas, vocab, _ = evalgen.build(nolabel)
+        for t in TASKS:
+            try:
+                getattr(evaluation, t)(cps, cas, vocab)
+            except Exception:
+                pass
+    t = TASKS[n % 4]
+    cps, cas, vocab, _ = evalgen.build(specs[t])
+    try:
+        got = _signature(getattr(evaluation, t)(cps, cas, vocab))
+    except Exception as e:
+        ctx.fail(f"after other evaluations in the same process {t} raised {type(e).__name__}: {str(e)[:150]} on an input it evaluated before", spec, repr(e)[:200], None, kind="state_between_evaluations")
+        return
+    if got != _PROBES[t]:
+        ctx.fail(f"after other evaluations in the same process {t} gives another result for the same input: {got[:2]} instead of {_PROBES[t][:2]}", spec, got, _PROBES[t], kind="state_between_evaluations")
+
+
 def check(spec, ctx):
     from soundevent import evaluation, io
 
@@ -209,6 +276,7 @@ def check(spec, ctx):
             before = snapshot((cps, cas, vocab))
             ev = ctx.call(spec, f"{task}(|vocabulary|={nv})", fn, cps, cas, vocab)
             ctx.unchanged(spec, f"{task}: clip predictions / clip annotations / tags", before, (cps, cas, vocab))
+            _probe_other_tasks(ctx, spec, evaluation)
         except Exception:
             ctx.case(spec, nontrivial=False, labels=[task, f"|V|={min(nv, 3)}", "raised"])
             raise
